@@ -193,7 +193,7 @@ func VerifC03Keys() {
 	inPaste := false
 	for i := 0; i < k; i++ {
 		b := zzverif.Byte("b")
-		kind := zzverif.Choose("kind", 6)
+		kind := zzverif.Choose("kind", 7)
 		var seq ansi.Sequence
 		switch kind {
 		case 0:
@@ -208,6 +208,9 @@ func VerifC03Keys() {
 		case 3:
 			zzverif.Assume(b >= 0x40 && b < 0x7F)
 			seq = ansi.SS3(b)
+		case 6: // a CSI-encoded key with an explicit kitty event type (press / repeat / release)
+			zzverif.Assume(b >= 'a' && b <= 'z')
+			seq = ansi.CSI{Final: 'u', Parameters: [][]int{{int(b)}, {1, 1 + zzverif.Choose("evtype", 3)}}}
 		case 4:
 			seq = ansi.CSI{Final: '~', Parameters: [][]int{{200}}}
 		case 5:
